@@ -24,6 +24,11 @@ type Case struct {
 	Src     string   `json:"src"`
 	Note    string   `json:"note,omitempty"`
 	Chain   []string `json:"chain,omitempty"` // the individual changes, in order
+	// what the generator meant the single change of Patches[0] to be: the text of each side with "..." for
+	// elisions, and the kind of fragment (expr | stmts | funcdecl | gendecl); empty when not applicable
+	MinusText string `json:"minus_text,omitempty"`
+	PlusText  string `json:"plus_text,omitempty"`
+	FragKind  string `json:"frag_kind,omitempty"`
 }
 
 func lcKey(fset *token.FileSet) func(token.Pos) int {
@@ -146,6 +151,10 @@ func runEngineCase(c Case) (out engineOut) {
 		return
 	}
 	out.nchanges = len(changes)
+	front := "?"
+	if c.FragKind != "" && len(pchanges) == 1 {
+		front = frontVerdict(fset, pchanges[0], c)
+	}
 
 	var sb strings.Builder
 	sb.WriteString("(case " + c.ID + " engine (changes")
@@ -198,7 +207,7 @@ func runEngineCase(c Case) (out engineOut) {
 		}
 		return "(ok) " + canonFile(f)
 	}()
-	out.resLine = "(res " + c.ID + " (trace " + strings.Join(trace, " ") + ") " + res + ")"
+	out.resLine = "(res " + c.ID + " (trace " + strings.Join(trace, " ") + ") (front " + front + ") " + res + ")"
 	return
 }
 
